@@ -3175,3 +3175,63 @@ C08_IMPL_RESET = dict(
     pyparams=["self"], params=[("self", "pyimpl")], returns="pyimpl", implicit_return="{self}", vars={},
 )
 ALL += [C08_IMPL_INIT, C08_IMPL_RESET]
+# ---- C08, second part: the wrapper class SparseDrugCombo (Model/Mvn.v: pysdc = the seven attributes its constructor assigns).
+# Trusted: the attribute table, a.copy() / a.astype(FloatingPointType) have the value of a (floats are exact rationals here),
+# SparseDrugComboMCMCSample(...) builds the model's `sample` record from its keywords, LegacySparseDrugComboImpl(...) runs the
+# translated constructor on a new instance, a method call on self.wrapped_model runs the translated method and the wrapper goes
+# on holding the mutated object, experiment_space.n_unique_* are two integers.  WHICH array is exported under which name, which
+# argument reaches which parameter of the legacy constructor, and what each wrapper calls come from the translation.
+_SDC_FIELDS = dict(_IMPL_FIELDS, **{
+    "wrapped_model": ("pysdc", "pyimpl", "sdc_wrapped {obj}", "set_sdc_wrapped {obj} {val}"),
+    "_rng": ("pysdc", "opt pygen", "sdc_rng {obj}", "set_sdc_rng {obj} {val}"),
+    "n_embedding_dimensions": ("pysdc", "Z", "sdc_n_dims {obj}", "set_sdc_n_dims {obj} {val}"),
+    "n_unique_treatments": ("pysdc", "Z", "sdc_n_treatments {obj}", "set_sdc_n_treatments {obj} {val}"),
+    "n_unique_samples": ("pysdc", "Z", "sdc_n_samples {obj}", "set_sdc_n_samples {obj} {val}"),
+    "predict_interactions": ("pysdc", "bool", "sdc_predict_interactions {obj}", "set_sdc_predict_interactions {obj} {val}"),
+    "interaction_log_transform": ("pysdc", "bool", "sdc_interaction_log_transform {obj}", "set_sdc_interaction_log_transform {obj} {val}")})
+_SDC = dict(_IMPL, cls="SparseDrugCombo", fields=_SDC_FIELDS, pyparams=["self"], params=[("self", "pysdc")], vars={})
+C08_IMPL_N_OBS = dict(_IMPL, func="n_obs", name="src_impl_n_obs", fields=_IMPL_FIELDS, pyparams=["self"], params=[("self", "pyimpl")],
+                      returns="Z", vars={}, prims=[("len(__l)", "Z.of_nat (length {l})", "Z")])
+C08_SDC_INIT = dict(
+    _SDC, func="__init__", name="src_sdc_init",
+    pyparams=["self", "experiment_space", "n_embedding_dimensions", "fake_intercept", "individual_eff", "mult_gamma_proc",
+              "local_shrinkage", "a0", "b0", "min_Mu", "max_Mu", "rng", "predict_interactions", "interaction_log_transform", "intercept"],
+    pydefaults=["True", "True", "True", "True", "1.1", "1.1", "-10.0", "10.0", "None", "False", "True", "True"],
+    params=[("self", "pysdc"), ("space_n_samples", "Z"), ("space_n_treatments", "Z"), ("n_embedding_dimensions", "Z"),
+            ("fake_intercept", "bool"), ("individual_eff", "bool"), ("mult_gamma_proc", "bool"), ("local_shrinkage", "bool"),
+            ("a0", "qnum"), ("b0", "qnum"), ("min_Mu", "qnum"), ("max_Mu", "qnum"), ("rng", "opt pygen"),
+            ("predict_interactions", "bool"), ("interaction_log_transform", "bool"), ("intercept", "bool")],
+    returns="pysdc", implicit_return="{self}",
+    prims=[("experiment_space.n_unique_treatments", "space_n_treatments", "Z"),
+           ("experiment_space.n_unique_samples", "space_n_samples", "Z")],
+    kwcalls={"LegacySparseDrugComboImpl": (
+        "!src_impl_init pi_blank {n_dims} {n_drugdoses} {n_clines} {intercept} {fake_intercept} {individual_eff} {mult_gamma_proc} "
+        "{local_shrinkage} {a0} {b0} {min_Mu} {max_Mu}", "pyimpl",
+        [("n_dims", "Z", None), ("n_drugdoses", "Z", None), ("n_clines", "Z", None), ("intercept", "bool", None),
+         ("fake_intercept", "bool", None), ("individual_eff", "bool", None), ("mult_gamma_proc", "bool", None),
+         ("local_shrinkage", "bool", None), ("a0", "qnum", None), ("b0", "qnum", None), ("min_Mu", "qnum", None), ("max_Mu", "qnum", None)])},
+)
+C08_SDC_STATE = dict(
+    _SDC, func="get_model_state", name="src_sdc_get_model_state", returns="sample",
+    prims=[("__a.copy()", "{a}", _GV, {"a": _GV}), ("__a.copy()", "{a}", _GM, {"a": _GM}),
+           ("__a.astype(FloatingPointType)", "{a}", _GV, {"a": _GV}), ("__a.astype(FloatingPointType)", "{a}", _GM, {"a": _GM})],
+    kwcalls={"SparseDrugComboMCMCSample": (
+        "{{| sm_W := {W}; sm_W0 := {W0}; sm_V2 := {V2}; sm_V1 := {V1}; sm_V0 := {V0}; sm_alpha := {alpha}; sm_precision := {precision} |}}",
+        "sample", [("precision", "qnum", None), ("alpha", "qnum", None), ("W0", _GV, None), ("V0", _GV, None), ("W", _GM, None),
+                   ("V2", _GM, None), ("V1", _GM, None)])},
+)
+C08_SDC_N_OBS = dict(_SDC, func="n_obs", name="src_sdc_n_obs", returns="Z",
+                     prims=[("__w.n_obs()", "!src_impl_n_obs {w}", "Z", {"w": "pyimpl"})])
+C08_SDC_RESET = dict(_SDC, func="reset_model", name="src_sdc_reset_model", returns="pysdc", implicit_return="{self}",
+                     effects=[("self.wrapped_model.reset_model()", "self'", "!sdc_on_wrapped {state} (src_impl_reset_model (sdc_wrapped {state}))")])
+C08_SDC_SET_RNG = dict(_SDC, func="set_rng", name="src_sdc_set_rng", pyparams=["self", "rng"], params=[("self", "pysdc"), ("rng", "pygen")],
+                       returns="pysdc", implicit_return="{self}")
+C08_SDC_RNG = dict(_SDC, func="rng", name="src_sdc_rng", returns="opt pygen")
+C08_SDC_STEP = dict(
+    _SDC, func="step", name="src_sdc_step", returns="pysdc", implicit_return="{self}",
+    monad=dict(type="gprog", bind="dop", ok="GRet", fold="prog_fold", unwrap="gprog_has_no_unwrap", bind_quote=""),
+    params=[("run", "blk -> st -> gprog st"), ("self", "pysdc")],
+    effects=[("self.wrapped_model.mcmc_step()", "self'",
+              "!gbind (src_mcmc_step run (pi_steps (sdc_wrapped {state})) (pi_st (sdc_wrapped {state}))) (fun s__ => GRet (sdc_with_state {state} s__))")],
+)
+ALL += [C08_IMPL_N_OBS, C08_SDC_INIT, C08_SDC_STATE, C08_SDC_N_OBS, C08_SDC_RESET, C08_SDC_SET_RNG, C08_SDC_RNG, C08_SDC_STEP]
